@@ -128,10 +128,52 @@ func bigFactsInterval(fs []facts.Fact, V ssa.Value) bigInterval {
 func acceptingReturns(fn *ssa.Function) []*ssa.Return {
 	var out []*ssa.Return
 	eachInstr(fn, func(i ssa.Instruction) {
-		if r, ok := i.(*ssa.Return); ok && len(r.Results) > 0 && isNilConst(r.Results[len(r.Results)-1]) {
-			out = append(out, r)
+		if r, ok := i.(*ssa.Return); ok && len(r.Results) > 0 && r.Block().Comment != "recover" {
+			rs := returnValues(r)
+			if isNilConst(rs[len(rs)-1]) {
+				out = append(out, r)
+			}
 		}
 	})
+	return out
+}
+
+// returnValues resolves results that go/ssa spills into named-result allocations when the function
+// has deferred calls: a load of such an allocation is replaced by the last value stored to it in
+// the returning block (or in its unique straight-line predecessors).
+func returnValues(r *ssa.Return) []ssa.Value {
+	out := make([]ssa.Value, len(r.Results))
+	for k, v := range r.Results {
+		out[k] = v
+		u, ok := v.(*ssa.UnOp)
+		if !ok || u.Op != token.MUL {
+			continue
+		}
+		al, ok := u.X.(*ssa.Alloc)
+		if !ok {
+			continue
+		}
+		b := r.Block()
+		for hops := 0; hops < 4 && b != nil; hops++ {
+			var last ssa.Value
+			for _, ins := range b.Instrs {
+				if ins == ssa.Instruction(u) {
+					break
+				}
+				if st, ok := ins.(*ssa.Store); ok && st.Addr == al {
+					last = st.Val
+				}
+			}
+			if last != nil {
+				out[k] = last
+				break
+			}
+			if len(b.Preds) != 1 {
+				break
+			}
+			b = b.Preds[0]
+		}
+	}
 	return out
 }
 
